@@ -124,7 +124,7 @@ def run(chk):
     n_search = 30 if (thorough or chk.disagreements or chk.broken) else 9
     for it in range(n_search):
         d = rng.choice([2, 2, 3, 4] if thorough else [2, 2, 3])
-        T = rng.choice([0.5, 1.0, 2.0])
+        T = rng.choice([0.5, 1.0, 2.0, 0.1, 0.2])          # 0.1, 0.2: spectral weight far above the temperature
         nst = rng.choice([2, 3, 4, 5, 7, 10, 25])
         kind = rng.choice(["commuting", "commuting", "zero-coupling", "weak"])
         if it < 2:
@@ -188,6 +188,27 @@ def run(chk):
                     "zero-coupling": "exp(-H/T)/Z", "weak": "exp(-H/T)/Z (weak coupling)"}[kind]
             tr = np.abs(s1.T - want).max()
             chk.fail("gibbs-state-wrong:" + kind, f"GibbsTempo deviates from {what} by {dev:.2e} (its transpose by {tr:.2e}); n_steps={nst}", info)
+
+    # ---- (c) the Matsubara cells tile the imaginary-time triangle [0, 1/T]: their total is lambda / T exactly ------------
+    # (int_0^beta (beta - u) K(u) du with K(u) = K(beta - u)); this is what makes the commuting closed form independent of n
+    for it in range(12 if thorough else 5):
+        T = [0.1, 0.2, 0.5, 0.05, 2.0][it % 5]
+        corr = oqupy.PowerLawSD(alpha=rng.choice([0.1, 0.3]), zeta=rng.choice([1, 3]), cutoff=rng.choice([1.0, 3.0, 8.0]),
+                                cutoff_type=rng.choice(["hard", "exponential", "gaussian"]), temperature=T)
+        info = {"kind": "matsubara-total", "T": T, "cutoff": corr.cutoff, "cutoff_type": corr.cutoff_type, "zeta": corr.zeta}
+        chk.search_cases += 1
+        chk.count("matsubara_total")
+        chk.case(info, ("mtotal", T, corr.cutoff, corr.cutoff_type, corr.zeta, corr.alpha))
+        try:
+            lam = reorganisation_energy(corr, T)
+            tot = complex(corr.correlation_2d_integral(1 / T, 0.0, shape="upper-triangle", matsubara=True, epsrel=1e-10))
+        except Exception as ex:
+            chk.fail("gibbs-raises", f"the Matsubara integral raises {ex!r}", info)
+            continue
+        if abs(abs(tot.real) - lam / T) > 1e-6 * lam / T or abs(tot.imag) > 0:
+            chk.fail("matsubara-total-wrong", f"the Matsubara double integral over the whole triangle [0, 1/T] is {tot.real:.8f}, "
+                     f"the reorganisation energy over T is {lam / T:.8f} (relative deviation {abs(abs(tot.real) - lam / T) / (lam / T):.2e}): "
+                     "the Boltzmann weights of the Gibbs state are shifted by the wrong amount", info)
 
     return chk.finish(
         level="proof",
